@@ -105,3 +105,42 @@ func harnessC31Witness() {
 		verif_assert(false, "witness")
 	}
 }
+
+// (c) a successful reconnection ends the failure run: the next failure run starts
+// again at the initial delay -- also when the agent was paused while the
+// successful attempt was in flight
+func harnessC31SuccessResets() {
+	cfg := ReconnectConfig{InitialDelay: time.Second, MaxDelay: time.Minute, Multiplier: 2, Jitter: 0}
+	var r *Reconnector
+	fails := 2
+	pauseInFlight := verif_nondet_bool()
+	paused := false
+	r = NewReconnector(cfg, func(addr string) error {
+		if fails > 0 {
+			fails--
+			return errors.New("connect failed")
+		}
+		if pauseInFlight {
+			r.Pause() // the agent goes to sleep while the attempt is in flight
+			paused = true
+		}
+		return nil // the peer is back
+	})
+	r.Schedule("a")
+	for i := 0; i < 3; i++ {
+		verif_assert(verif_timers() == 1, "C31/one-timer-per-peer")
+		verif_fire_timer(0)
+		verif_drain()
+	}
+	verif_assert(fails == 0, "C31/attempts-not-made")
+	if paused {
+		r.Resume()
+	}
+	// the connection is lost again later: a new failure run
+	r.Schedule("a")
+	verif_reach("C31/success-resets")
+	verif_assert(verif_timers() == 1, "C31/one-timer-per-peer")
+	if verif_timers() == 1 {
+		verif_assert(verif_timer_dur(0) == int64(cfg.InitialDelay), "C31/backoff-not-reset-by-a-successful-reconnection")
+	}
+}
